@@ -8,7 +8,7 @@ import Harper.Model.ConfigPaths
 * `eff <entry> | <entry> | …` → `ok <sorted, de-duplicated effect tags>` for the symbolic
   configuration `user dictionary = @cfg/dictionary.txt`, `file dictionaries = @data/fdicts/`,
   `statistics = @data/stats.txt` (as in `Config::default()`, the statistics file and the
-  file-dictionary directory share their parent). Entries: `lib wasm stdio tcp close deleted ignore
+  file-dictionary directory share their parent). Entries: `lib wasm stdio tcp tcp-taken close deleted ignore
   record action shutdown`, `upd <twice> <path…>`, `save <exists> <twice> <path…>`,
   `addu <exists> <twice> <path…>`, `addf <exists> <twice> <path…>`,
   `cfg <exists> <twice> <path…> ; <exists> <twice> <path…> ; …`.
@@ -65,6 +65,7 @@ def effParseEntry : List String → Option Entry
   | ["wasm"] => some .wasm
   | ["stdio"] => some .startStdio
   | ["tcp"] => some .startTcp
+  | ["tcp-taken"] => some .startTcpTaken
   | ["close"] => some .close
   | ["deleted"] => some .deleted
   | ["ignore"] => some .ignoreLint
